@@ -462,7 +462,7 @@ func verifC06TreeDeleteAbove(op *vs.Op, listed string) bool {
 func (m *verifC06Machine) step(op *vs.Op) {
 	f, c := m.f, m.c
 	before, snapB := m.cur, m.snap
-	res := vs.Apply(m.w.Store, op)
+	res := vs.C06Apply(m.w.Store, op)
 	m.ops = append(m.ops, op)
 	after := m.eval("after " + op.Desc)
 	snapA := verifC06TakeSnap(m.w.Store)
